@@ -79,6 +79,9 @@ void AutoParameter::setValue(double value)
       }
     }
   }
+#ifdef BPP_CORE_VERIF
+  BPP_CORE_VERIF_PARAMETER_AUDIT("autoSetValue");
+#endif
 }
 
 /******************************************************************************/
